@@ -123,6 +123,17 @@ def _dispatch(ctx) -> None:
         ifs = [n for n in core.walk_fn(fn) if isinstance(n, ast.If) and nun(n.test) in ("not dt", "dt is None")]
         ok = len(ifs) == 1 and nun(ifs[0].body[0]).startswith("raise PendulumException(") and nun(core.body_no_doc(fn)[-1]) == "return dt"
         ctx.ob("DISPATCH.nth-error", f"{cls}.nth_of", ok, "nth_of must raise PendulumException exactly when the helper found no such occurrence", m.loc(fn))
+        # building the exception must not itself fail: the weekday is accepted as a plain int 0..6 everywhere else (it is used
+        # as a calendar.monthcalendar column), so member attributes may only be read from WeekDay(<param>)
+        wd = core.params(fn)[-1]
+        for st in (ifs[0].body if ifs else []):
+            if isinstance(st, ast.Raise) and st.exc is not None:
+                bare = [a for a in ast.walk(st.exc) if isinstance(a, ast.Attribute) and isinstance(a.value, ast.Name) and a.value.id == wd]
+                wrapped = [a for a in ast.walk(st.exc) if isinstance(a, ast.Attribute) and isinstance(a.value, ast.Call)
+                           and nun(a.value.func) == "WeekDay" and [nun(x) for x in a.value.args] == [wd]]
+                ctx.ob("DISPATCH.nth-error", f"{cls}.nth_of/message", not bare,
+                       f"the exception message reads {[nun(a) for a in bare] or [nun(a) for a in wrapped]}: `{wd}` may be a plain int, and an "
+                       f"attribute read on it raises AttributeError instead of the PendulumException being built", m.loc(st))
     em = pmod("exceptions")
     ctx.ob("DISPATCH.nth-error", "PendulumException", [core.un(b) for b in em.cls("PendulumException").bases] == ["Exception"], "PendulumException(Exception)", em.rel)
 
